@@ -46,6 +46,7 @@ struct vec_k
   template <class V> static auto push_back(V const &v, I k) { return fv::push_back(v, k); }
   template <class D, class V> static D narrow(V const &v) { return fv::narrow_cast<D>(v); }
   template <class D, class V> static D scast(V const &v) { return fv::structure_cast<D, fcppt::cast::static_cast_fun>(v); }
+  template <class D, class Conv, class V> static D scast_with(V const &v) { return fv::structure_cast<D, Conv>(v); }
   template <sz i, class V> static decltype(auto) at(V &v) { return fv::at<i>(v); }
   template <sz i, class V> static decltype(auto) named(V &v)
   {
@@ -68,6 +69,7 @@ struct dim_k
   template <class V> static auto push_back(V const &v, I k) { return fd::push_back(v, k); }
   template <class D, class V> static D narrow(V const &v) { return fd::narrow_cast<D>(v); }
   template <class D, class V> static D scast(V const &v) { return fd::structure_cast<D, fcppt::cast::static_cast_fun>(v); }
+  template <class D, class Conv, class V> static D scast_with(V const &v) { return fd::structure_cast<D, Conv>(v); }
   template <sz i, class V> static decltype(auto) at(V &v) { return fd::at<i>(v); }
   template <sz i, class V> static decltype(auto) named(V &v)
   {
@@ -232,6 +234,16 @@ template <class K, sz N> void unary_case(vop<K, N> const &U, std::vector<long> c
       C14_EQ(rdv(K::template scast<lst>(s)), u, fn + ":structure_cast", "structure_cast<long>");
       C14_EQ(rdv(K::template scast<lst>(v)), u, fn + ":structure_cast:view", "structure_cast<long> (view storage)");
       C14_EQ(rdv(K::template scast<kst<K, N>>(K::template scast<lst>(s))), u, fn + ":structure_cast:back", "structure_cast back to int");
+      {
+        // a user-supplied converter is applied to every element, also when source and destination have the same
+        // value type (structure_cast<Dest, Conv> = element-wise Conv, as on a plain array)
+        rvec<N> un;
+        for (sz i = 0; i < N; ++i)
+          un.d[i] = 1 - u.d[i];
+        C14_EQ(rdv(K::template scast_with<kst<K, N>, c14::one_minus_fun>(s)), un, fn + ":structure_cast:user_converter:same_type", "structure_cast<int, 1-x>");
+        C14_EQ(rdv(K::template scast_with<kst<K, N>, c14::one_minus_fun>(v)), un, fn + ":structure_cast:user_converter:same_type:view", "structure_cast<int, 1-x> (view storage)");
+        C14_EQ(rdv(K::template scast_with<lst, c14::one_minus_fun>(s)), un, fn + ":structure_cast:user_converter", "structure_cast<long, 1-x>");
+      }
       if constexpr (K::is_vector)
       {
         C14_EQ(rdv(fv::to_dim(s)), u, fn + ":to_dim", "to_dim");
